@@ -117,7 +117,7 @@ def build_args(rng, cls, tier):
         n = rng.choice([0, 1, 2, 14, 59, 60, 64, 1500, 1514] + ([9000, 65529] if big else []))
         return {'data': [rng.randrange(256) for _ in range(n)]}
     if cls == 'analog':
-        n = 4 * rng.choice([0, 1, 2, 3, 16, 250] + ([16382] if big else []))
+        n = rng.choice([0, 4, 8, 12, 64, 1000, 1, 2, 3, 5, 6, 7, 9, 10, 11, 13, 999, 1001, 1002] + ([65528, 65529, 65527] if big else []))
         return {'data': [rng.randrange(256) for _ in range(n)]}
     if cls == 'cm':
         ln = lambda: rng.choice([0, 1, 2, 3, 4, 5, 6, 17, 100, 253, 254, 255, 256, 300] + ([1000, 32000] if big else []))
